@@ -144,6 +144,8 @@ pub(crate) fn wake(pipe: RawFd, method: WakeMethod) {
         //   many signals, but the reader didn't have time to read the data yet. It'll still get
         //   woken up, so not fitting another letter in it is fine.
         let data = b"X" as *const _ as *const _;
+        #[cfg(sighook_verif)]
+        signal_hook_registry::verif_shim::point(signal_hook_registry::verif_shim::Kind::PipeWake, pipe as usize);
         match method {
             WakeMethod::Write => libc::write(pipe, data, 1),
             WakeMethod::Send => libc::send(pipe, data, 1, MSG_NOWAIT),
